@@ -179,6 +179,15 @@ func (s *socket) onOpen() {
 	)
 
 	if i := s.server.Opts().InitialPacket(); i != nil {
+		// every session needs a reader of its own: the configured one would be
+		// drained by the first handshake
+		switch v := i.(type) {
+		case types.BufferInterface:
+			i = v.Clone()
+		case *strings.Reader:
+			r := *v
+			i = &r
+		}
 		s.sendPacket(packet.MESSAGE, i, nil, nil)
 	}
 
